@@ -24,7 +24,7 @@ def theorems(path):
         if m and ns and ns[-1].endswith(m.group(1).split(".")[-1]):
             ns.pop()
             continue
-        m = re.match(r"\s*(?:@\[[^\]]*\]\s*)?(?:private\s+|protected\s+)?theorem\s+([^\s:({\[]+)", line)
+        m = re.match(r"\s*(?:@\[[^\]]*\]\s*)?(?:protected\s+)?theorem\s+([^\s:({\[]+)", line)
         if m:
             out.append(".".join(ns + [m.group(1)]))
     return out
